@@ -179,7 +179,7 @@ def main(tier, seed):
     progs = program_pool(ctx, tier)
     cases = [{'src': p['src'], 'script': p['script'], 'levels': [0, 1, 2], 'max_ticks': 20000}
              for p in progs]
-    raws = vlib.run_impl('peepfn.dbg_case', cases, timeout=3300)
+    raws = pg.run_chunked('peepfn.dbg_case', cases, 96, timeout=3300)
     ctx.rule.append(f'{len(progs)} programs (repository corpus{" (every 4th)" if tier == "quick" else ""}, '
                     f'{sum(1 for p in progs if p["kind"] == "gen")} generated from a fixed pool biased to empty '
                     'IF/ELSE/ELSEIF/CASE bodies, single-line IF with ELSE, nested SELECT, several statements per line, '
